@@ -7,6 +7,7 @@ import (
 	"net/http"
 	"net/http/httptest"
 	"net/url"
+	"path/filepath"
 
 	"github.com/prometheus/client_golang/prometheus"
 
@@ -27,6 +28,7 @@ type node struct {
 	sm    *kscrape.Manager
 	proxy *sidecar.Proxy
 	svc   *sidecar.Service
+	inj   *sidecar.Injector
 	head  int64
 	rt    http.RoundTripper
 }
@@ -40,7 +42,11 @@ func newNode(dir, raw string, rt http.RoundTripper) (*node, error) {
 	n.cfg = prom.NewConfigManager()
 	n.tm = sidecar.NewTargetsManager(dir, prometheus.NewRegistry(), quiet)
 	n.sm = kscrape.New(false, quiet)
-	n.cfg.AddReloadCallbacks(n.sm.ApplyConfig)
+	// the same callback chains as cmd/kvass/sidecar.go (minus the Prometheus reload calls)
+	n.inj = sidecar.NewInjector(filepath.Join(dir, "prometheus-out.yml"),
+		sidecar.InjectConfigOptions{ProxyURL: "http://127.0.0.1:8008", PrometheusURL: "http://127.0.0.1:9090"}, prometheus.NewRegistry(), quiet)
+	n.cfg.AddReloadCallbacks(n.sm.ApplyConfig, n.inj.ApplyConfig)
+	n.tm.AddUpdateCallbacks(n.inj.UpdateTargets)
 	getJob := func(job string) *kscrape.JobInfo {
 		ji := n.sm.GetJob(job)
 		if ji != nil {
